@@ -439,7 +439,7 @@ fn source(big: bool) -> impl Strategy<Value = Source> {
     let len = if big {
         prop_oneof![1 => Just(0usize), 3 => 0usize..=64, 5 => 0usize..=1500, 5 => 0usize..=4096, 4 => 0usize..=20_000, 2 => 0usize..=MAX_LEN].boxed()
     } else {
-        prop_oneof![1 => Just(0usize), 4 => 0usize..=64, 7 => 0usize..=600, 5 => 0usize..=1500, 3 => 0usize..=4096, 1 => 0usize..=20_000].boxed()
+        prop_oneof![2 => Just(0usize), 8 => 0usize..=64, 14 => 0usize..=600, 10 => 0usize..=1500, 6 => 0usize..=4096, 2 => 0usize..=20_000, 1 => 0usize..=MAX_LEN].boxed()
     };
     (
         len,
